@@ -525,3 +525,101 @@ def r_zero(f, serde_sinks=False):
                 R.fail(b.ident, "%s#%d" % (kind, o), msg, b.where(e["span"]), {"states": sorted(e["bad"])})
     R.require_floor(n_sites, 17, "construction sites / writer returns")
     return R, n_sites
+
+
+ZERO_PANIC_CALLS = ("chunks", "chunks_mut", "chunks_exact", "chunks_exact_mut", "rchunks", "rchunks_mut", "rchunks_exact", "rchunks_exact_mut",
+                    "windows", "step_by", "array_chunks", "array_windows")
+
+
+def r_nonzero(f):
+    """R-NONZERO: a std API that panics on a zero argument (chunks*/windows/step_by) or a division / remainder must
+    not see a value that can be zero on that path.  Dimensions are legitimately zero for empty arrays, so an
+    operation that is specified for every shape 'including empty ones' must guard them.  Decided with the
+    {v == 0} predicate abstraction: every tracked value starts unconstrained, branch edges refine it."""
+    R = Result("R-NONZERO")
+    n = 0
+    for b in f.fn_bodies:
+        fl = b.file.replace("\\", "/")
+        if "/tests" in fl or fl.endswith("tests.rs") or b.d.get("derived"):
+            continue
+        bd = b.d
+        sites = []      # (block, index|'term', operand, what, span)
+        for bi, bl in enumerate(bd["blocks"]):
+            if bl["cleanup"]:
+                continue
+            for si, st in enumerate(bl["stmts"]):
+                if st["k"] == "assign" and st["rv"]["k"] == "binop" and st["rv"]["op"] in ("Div", "Rem") and not st["span"]["exp"]:
+                    sites.append((bi, si, st["rv"]["r"], "divisor of `%s`" % ("/" if st["rv"]["op"] == "Div" else "%"), st["span"]))
+            t = bl["term"]
+            if t and t["k"] == "call" and t["func"].get("fn") and t["func"]["fn"]["name"] in ZERO_PANIC_CALLS and len(t["args"]) >= 2 \
+                    and re.match(r"^core::(slice|iter)", t["func"]["fn"]["path"]):
+                sites.append((bi, "term", t["args"][1], "argument of %s()" % t["func"]["fn"]["name"], t["span"]))
+        if not sites:
+            continue
+        Z = ZFn(bd, {})
+        tracked = []
+
+        def add(k):
+            if k is not None and k not in tracked:
+                tracked.append(k)
+        uses = {}
+        for bl in bd["blocks"]:
+            for st in bl["stmts"]:
+                if st["k"] == "assign":
+                    rv = st["rv"]
+                    for o in [rv.get("o"), rv.get("l"), rv.get("r")] + list(rv.get("fields", [])):
+                        if o and o.get("k") in ("copy", "move"):
+                            uses[o["p"]["local"]] = uses.get(o["p"]["local"], 0) + 1
+            t = bl["term"]
+            if t:
+                for o in [t.get("discr"), t.get("cond")] + list(t.get("args", [])):
+                    if o and o.get("k") in ("copy", "move"):
+                        uses[o["p"]["local"]] = uses.get(o["p"]["local"], 0) + 1
+
+        def slice_from(o, depth=0):
+            if o is None or o["k"] not in ("copy", "move") or depth > 8:
+                return
+            key = Z.canon(o["p"])
+            l = o["p"]["local"]
+            ds = Z.defs.get(l, [])
+            simple = len(ds) == 1 and ds[0][0] == "rv" and ds[0][1]["k"] in ("use", "cast", "binop") and (uses.get(l, 0) <= 1 or bool(o["p"]["proj"]))
+            if not (key[0] == "L" and l > bd["arg_count"] and simple):
+                add(key)
+            if not o["p"]["proj"] or (len(o["p"]["proj"]) == 1 and o["p"]["proj"][0]["k"] == "field"):
+                for d in ds:
+                    if d[0] == "rv":
+                        for sub in _subs(d[1]):
+                            slice_from(sub, depth + 1)
+        for (bi, si, o, what, span) in sites:
+            slice_from(o)
+        found = {}
+
+        def sinks(bb, si, node, states, keys):
+            for (sb, ss, o, what, span) in sites:
+                if sb != bb or ss != si:
+                    continue
+                zero_possible = False
+                for V in states:
+                    vals = Z.val_operand(o, V) & {"Z", "NZ"}
+                    if "Z" in vals or not vals:
+                        zero_possible = True
+                e = found.setdefault((what, span["lo"], span["col"]), {"zero": False, "span": span, "n": 0, "what": what})
+                e["zero"] = e["zero"] or zero_possible
+                e["n"] += len(states)
+        try:
+            Z.run(tracked, [], sinks)
+        except RecursionError:
+            R.inconc(b.ident, "recursion limit")
+            continue
+        ords = {}
+        for key in sorted(found, key=lambda k: (k[0], k[1], k[2])):
+            e = found[key]
+            o = ords.get(e["what"], 0)
+            ords[e["what"]] = o + 1
+            n += 1
+            ok = not e["zero"]
+            R.inst(b.ident, "%s #%d is non-zero in every abstract state reaching it (%d states)" % (e["what"], o, e["n"]), ok)
+            if not ok:
+                R.fail(b.ident, "%s#%d" % (e["what"], o), "%s: the %s can be zero on a path that reaches it (e.g. an empty array / view has zero columns): the call panics where the operation is specified for every shape including empty ones" % (b.ident, e["what"]), b.where(e["span"]))
+    R.require_floor(n, 6, "zero-sensitive sites (divisions, chunks*, step_by)")
+    return R, n
